@@ -152,6 +152,8 @@ int main(int argc, char **argv){
   misuse("updateGrid(limits of wrong size)", [&]{ grid.updateGrid(3, type_level, okw, badlim); }, !empty && !local && !constructing);
   misuse("getGlobalPolynomialSpace(on a grid that is neither Global nor Sequence)", [&]{ grid.getGlobalPolynomialSpace(true); }, !grid.isGlobal() && !grid.isSequence());
   misuse("removePointsByHierarchicalCoefficient(on a grid that is not Local Polynomial)", [&]{ grid.removePointsByHierarchicalCoefficient(0.1, 0); }, !grid.isLocalPolynomial());
+  for (int keep : {0, 1, 5}) misuse(("removePointsByHierarchicalCoefficient(num_new_points = " + std::to_string(keep) + ")(on a grid that is not Local Polynomial)").c_str(), [&, keep]{ grid.removePointsByHierarchicalCoefficient(keep, 0); }, !grid.isLocalPolynomial());
+  misuse("removePointsByHierarchicalCoefficient(tolerance, all outputs)(on a grid that is not Local Polynomial)", [&]{ grid.removePointsByHierarchicalCoefficient(0.0, -1); }, !grid.isLocalPolynomial());
   // ---- construction
   misuse("getCandidateConstructionPoints(type, weights)(before beginConstruction)", [&]{ grid.getCandidateConstructionPoints(type_level, okw, std::vector<int>()); }, !constructing);
   misuse("getCandidateConstructionPoints(type, output)(before beginConstruction)", [&]{ grid.getCandidateConstructionPoints(type_level, 0, std::vector<int>()); }, !constructing);
